@@ -131,3 +131,12 @@ Theorem C17_fingerprint_binds : forall (H : nat -> bytes -> bytes) (bech32 : str
   fingerprint H bech32 p n = fingerprint H bech32 p' n' -> p = p' /\ n = n'.
 Proof. exact fingerprint_binds. Qed.
 Print Assumptions C17_fingerprint_binds.
+
+(* The byte walker with which the oracle cuts the body (and the auxiliary data) out of the library's
+   transaction bytes returns, for every well-formed transaction item, exactly the encodings of its four
+   elements — so "H 32 (slice)" in the oracle is "tx_id H (enc body)" of the theorems above. *)
+Theorem C17_walker_sound : forall body ws valid aux : cbor, wf body -> wf ws -> wf valid -> wf aux ->
+  array_items (enc (CA [body; ws; valid; aux]))
+  = Some [(body, enc body); (ws, enc ws); (valid, enc valid); (aux, enc aux)].
+Proof. exact tx_body_slice. Qed.
+Print Assumptions C17_walker_sound.
